@@ -60,6 +60,9 @@ def cases(tier, seed):
         for ice in ("greenland",):
             for z0 in DEPTHS[2::4]:
                 out.append({"ice": ice, "tracer": "basic", "dz": 1.0, "z_from": z0, "steps": 4000})
+        # the fine integration step (dz < 1) on two source depths; the thorough tier has the whole lattice
+        for z0 in (-100.0, -400.0):
+            out.append({"ice": "antarctic", "tracer": "basic", "dz": 0.25, "z_from": z0, "steps": 4000})
     basic_ice = ["antarctic"] if tier == "quick" else ["antarctic", "greenland"]
     for ice in basic_ice:
         for dz in ((1.0, 4.0) if tier == "quick" else (0.25, 1.0, 4.0)):
@@ -283,7 +286,8 @@ def evaluate(case):
             stats["nv_max_dL"] = max(stats.get("nv_max_dL", 0.0), dL)
             stats["nv_max_dT"] = max(stats.get("nv_max_dT", 0.0), dT)
             stats["nv_rays"] = stats.get("nv_rays", 0) + 1
-            ratio = abs((Tr / Lr) / (float(m["t"][j]) / float(m["s"][j])) - 1.0)
+            ms_, mt_ = float(m["s"][j]), float(m["t"][j])
+            ratio = abs((Tr / Lr) / (mt_ / ms_) - 1.0) if ms_ > 0 and mt_ > 0 else 0.0
             stats["nv_max_ratio"] = max(stats.get("nv_max_ratio", 0.0), ratio)
             # near-vertical rays above z_uniform: length and time each carry the conditioning error of finding K4, but they carry
             # the SAME relative error (measured: their ratio agrees with the marched ray's to 1.3e-4 on all 1916 such rays of the
@@ -291,7 +295,7 @@ def evaluate(case):
             if not ratio <= 5e-4:
                 fails.append(_f("time-length-ratio", case, zt, rh, "solution %d: c tof / path_length = %.6f, path-averaged index of the "
                                 "marched ray %.6f (rel. %.3g > 5e-4)" % (si, Tr / Lr * 299792458.0,
-                                                                         float(m["t"][j]) / float(m["s"][j]) * 299792458.0, ratio), **tags))
+                                                                         mt_ / ms_ * 299792458.0, ratio), **tags))
         if not miss <= tol_miss:
             fails.append(_f("arrival", case, zt, rh, "solution %d (direct=%s): launched in the reported direction the ray passes the receiver at %.4g m %s (tol %.3g; %.4g m in the other phase), L=%.6g"
                             % (si, direct, miss, "before turning/reflecting" if direct else "after turning/reflecting", tol_miss, float(other_miss[j]), Lr), **tags))
